@@ -82,7 +82,14 @@ def goal_replay(goal, assumptions=(), encs=None, tol=1e-6, npoints=12, label="")
 
     def replay(model):
         gn = _names(goal) if z3.is_expr(goal) else set()
-        cand = encs if encs is not None else [e for e in REGISTRY if gn & (set(e.vars) | set(e.interp.ackdefs) | set(e.uf_syms))]
+        if encs is not None:
+            cand = encs
+        else:
+            world = lambda e: set(e.vars) | set(e.interp.ackdefs) | set(e.uf_syms)
+            named = {n for n in gn if not (n in sym.CTX.consts or n.startswith("tw") or n.startswith("sqrt") or n == "PI")}
+            # encodings that explain EVERY symbol of the goal on their own (other parts of a check often re-use input symbol
+            # names for arrays of other shapes); if the goal spans several encodings, all that share a symbol with it
+            cand = [e for e in REGISTRY if named and named <= world(e)] or [e for e in REGISTRY if gn & world(e)]
         if not z3.is_expr(goal):
             if bool(goal):
                 return {"reproduced": False, "detail": "goal is concretely true"}
@@ -134,8 +141,19 @@ def goal_replay(goal, assumptions=(), encs=None, tol=1e-6, npoints=12, label="")
                 if not ok:
                     tried.append(f"{what}: outside the assumptions")
                     continue
+                validated = 0
                 for e in cand:
-                    real, _ = e.real_outputs({k: v for k, v in vals.items() if k in e.vars or k in e.uf_syms})
+                    try:
+                        real, _ = e.real_outputs({k: v for k, v in vals.items() if k in e.vars or k in e.uf_syms})
+                    except (ArithmeticError, KeyError):
+                        raise
+                    except Exception:
+                        # an encoding that merely shares symbol names with the goal (another part of the check re-used the
+                        # input symbols) and cannot be run at this point is not evidence either way: skip it
+                        continue
+                    if len(real) != len(e.outs) or any(tuple(np.shape(r)) != tuple(o.shape) for r, o in zip(real, e.outs)):
+                        continue  # not the program this encoding was made from (symbol names re-used)
+                    validated += 1
                     ne_e = NumEval({k: v for k, v in vals.items()}, ack=e.interp.ackdefs)
                     for r, o in zip(real, e.outs):
                         idxs = list(np.ndindex(o.shape))
@@ -152,6 +170,9 @@ def goal_replay(goal, assumptions=(), encs=None, tol=1e-6, npoints=12, label="")
                                 agree = abs(complex(cv) - complex(rv)) <= 1e-7 * scale
                             if not agree:
                                 return {"reproduced": False, "detail": f"encoding #{REGISTRY.index(e) if e in REGISTRY else '?'} ({len(e.interp.uf_calls)} opaque calls, inputs {[i_.name for i_ in e.ins]}) and real code disagree at {what} (output component {i}: {cv} vs {rv})"}
+                if not validated:
+                    tried.append(f"{what}: no encoding could be re-run on the real code")
+                    continue
                 why = []
                 if not ne.holds(goal, tol, explain=why):
                     return {"reproduced": True, "detail": f"{label + ': ' if label else ''}at {what} the real code was run and agrees with its encoding; the stated relation fails there: {'; '.join(why) or 'disjunction false'}",
